@@ -199,6 +199,16 @@ class Intrinsics:
                     return SInt(tx % (x + 1))  # z3 mod with positive modulus is Python's & mask
             raise Unsupported("& with a non-mask operand")
         if isinstance(op, ast.BitOr):
+            # constant with few set bits: c | x == x + sum over set bits b of 2^b * (1 - bit_b(x)), bit_b(x) = (x div 2^b) mod 2
+            # (floor division: exact for every Python int, negative ones included)
+            for c, tx in ((a, tb), (b, ta)):
+                if isinstance(c, int) and not isinstance(c, bool) and c >= 0 and bin(c).count("1") <= 8:
+                    self.use("c | x for a constant c by per-bit arithmetic with div/mod by constants (exact)")
+                    acc = tx
+                    for bit in range(c.bit_length()):
+                        if (c >> bit) & 1:
+                            acc = acc + _pow2(bit) * (1 - (tx / _pow2(bit)) % 2)
+                    return SInt(acc)
             for k in (4, 10, 8, 16, 6, 5, 3, 2, 1, 12):
                 m = _pow2(k)
                 if ex.prove_now(z3.And(ta % m == 0, tb >= 0, tb < m)):
